@@ -659,11 +659,12 @@ def _constrain_ages(
         # TODO: even if nodes_fixed[p], this will still change the age
         if nodes_time[c] + epsilon >= nodes_time[p]:
             nodes_time[p] = nodes_time[c] + epsilon
-            if not nodes_time[p] > nodes_time[c]:
-                # epsilon is below the floating point resolution at this age: step
-                # by two representable values, so that the midpoint of the branch
-                # (a mutation time) is still strictly younger than the parent
-                nodes_time[p] = np.nextafter(np.nextafter(nodes_time[c], np.inf), np.inf)
+            # epsilon may be at or below the floating point resolution at this age:
+            # keep at least two representable steps, so that the midpoint of the
+            # branch (a mutation time) is still strictly younger than the parent
+            closest = np.nextafter(np.nextafter(nodes_time[c], np.inf), np.inf)
+            if nodes_time[p] < closest:
+                nodes_time[p] = closest
 
     return nodes_time
 
